@@ -55,16 +55,19 @@ import queue
 SLOTS = queue.Queue()
 
 
-def run_one(bank, path):
+def run_one(bank, path, only=None):
     slot = SLOTS.get()
     try:
-        return run_one_slot(bank, path, slot)
+        return run_one_slot(bank, path, slot, only)
     finally:
         SLOTS.put(slot)
 
 
-def run_one_slot(bank, path, slot):
+def run_one_slot(bank, path, slot, only=None):
+    """`only`: run just that property's check (the thorough tier of one property asks for its own verdict only)."""
     meta = parse_header(path)
+    if only is not None:
+        meta = dict(meta, property=[p_ for p_ in meta["property"] if p_ == only])
     name = os.path.basename(path)
     d, dst = scratch_copy()
     try:
